@@ -50,6 +50,12 @@ def build_mm(spec):
         mp.module, mp.controller = mod_i, ctl_i
     if spec.get("maps"):
         mm.update_user_defined_controllers()
+    for idx in spec.get("empty_slots", []):
+        # a module of the embedded project is deleted AFTER the mappings were set up: the slot stays, empty
+        gone = mm.project.modules[idx]
+        mm.project.modules[idx] = None
+        if gone is not None:
+            gone.parent = None
     for i, lab in (spec.get("labels") or {}).items():
         mm.user_defined[int(i)].label = lab
     for slot, raw in (spec.get("values") or {}).items():
@@ -136,6 +142,20 @@ def check_case(case):
         d = S.diff(want, got)
         if d:
             vs.append(C.viol("roundtrip", dict(k2, path=C.first_diff_key(d)), {"diff": S.diff_text(d)}, case))
+        # N13 compares user-defined controllers by their STORED word; the value the accessor presents (stored word seen
+        # through the range mirrored from the target) must survive as well
+        def logical(m_):
+            out_ = []
+            for i_ in range(n):
+                v_ = getattr(m_, f"user_defined_{i_ + 1}")
+                out_.append(int(getattr(v_, "value", v_)) if v_ is not None else None)
+            return out_
+        try:
+            lb, ll = logical(mm), logical(l)
+            if lb != ll:
+                vs.append(C.viol("roundtrip", dict(k2, path="user-defined values as presented"), {"built": lb[:12], "loaded": ll[:12]}, case))
+        except Exception as e:
+            vs.append(C.viol("user-defined-value-unreadable", dict(k2, exc=type(e).__name__), {}, case))
         att = [c.attached(l) for c in l.user_defined]
         if att != [True] * n + [False] * (96 - n):
             vs.append(C.viol("attached-flags", k2, {"n": n, "attached_true": sum(att)}, case))
@@ -214,6 +234,12 @@ def object_cases(ctx):
         add("mapping-chain", {"child": leaf, "n": 1, "maps": [[0, 1, 5]], "expect_raw": {"0": raw}})
         add("mapping-chain", {"child": {"child": leaf, "n": 2, "maps": [[1, 1, 5]], "expect_raw": {"1": raw}}, "n": 1,
                               "maps": [[0, 1, 6]], "expect_raw": {"0": raw}})
+    # an earlier mapping points at a module slot that has been emptied; later mappings onto negative-minimum targets
+    bal, dco = ctl_index("Amplifier", "balance"), ctl_index("Amplifier", "dc_offset")
+    for hole_first in (True, False):
+        inner = [["Generator", []], ["Amplifier", [{"k": "ctl", "n": "balance", "v": -17}, {"k": "ctl", "n": "dc_offset", "v": 40}]]]
+        maps = [[0, 2, 0], [1, 1, 0], [2, 2, bal], [3, 2, dco]] if hole_first else [[0, 2, bal], [1, 2, dco], [2, 1, 0], [3, 2, 0]]
+        add("mapping-onto-emptied-slot", {"n": 4, "inner": inner, "maps": maps, "empty_slots": [1]})
     for n in (0, 1, 2, 95, 96):
         slots = sorted({0, max(0, n - 1)}) if n else []
         for kind, (ty, attr) in TARGETS.items():
